@@ -528,4 +528,49 @@ example : (parse .selectionSet none 1 "{ a(x: {}) }".toList).errors = [] ∧
 example : treeDepth (parse .selectionSet none 2 "{ a(x: [1]) }".toList) = 2 ∧ Parse.vdepth (.list (.cons (.int "1".toList) .nil)) = 1 :=
   ⟨by decide +kernel, rfl⟩
 
+/-! ### Both limits set: "the recursion limit was hit ⇒ a limit error is reported", reduced to one lemma
+
+Still NOT proved unconditionally.  It is true for this reason: either the lexer refused an item — then the token-limit
+error is on record and is the last error (`token_limit_error_is_last`), whatever the guards did afterwards, including a
+guard hit with no token current (examples below) — or it never refused one, and then the run is the run without token
+limit, where every hit is reported (`limit_error_iff_hit`).  The second half, "a token limit that is not reached does
+not change the run", is the one missing lemma: it is a two-run (relational) statement about every grammar function,
+the generic one-state pass of Proofs/ParserRecursion21–25 cannot express it, and the cross-run calculus of
+Proofs/ParserRecursion6–17 is built on `limit = none`.  The theorem below makes the reduction exact: from that lemma
+(hypothesis `hsame`, for this source and these limits) the clause follows. -/
+
+/-- **Both limits set.**  If a token limit that was not reached (`tokHigh ≤ n`) leaves the error list and the
+    recursion high-water mark as they are without token limit, then a hit recursion limit is reported. -/
+theorem rec_hit_reported_with_token_limit (e : Entry) (n r : Nat) (src : Parse.Str)
+    (hsame : (parse e (some n) r src).tokHigh ≤ n →
+      (parse e (some n) r src).errors = (parse e none r src).errors ∧
+      (parse e (some n) r src).recHigh = (parse e none r src).recHigh)
+    (h : (parse e (some n) r src).recHigh > r) :
+    ∃ x, x ∈ (parse e (some n) r src).errors ∧ x.kind = .limit := by
+  by_cases ht : (parse e (some n) r src).tokHigh > n
+  · obtain ⟨pre, i, he⟩ := token_limit_error_is_last e n r src ht
+    exact ⟨⟨i, 0, .limit⟩, by rw [he]; simp, rfl⟩
+  · obtain ⟨h1, h2⟩ := hsame (by omega)
+    rw [h1]
+    exact (limit_error_iff_hit e r src).mpr (by rw [← h2]; exact h)
+
+/-- The half that IS unconditional: once the token limit was reached a limit error is on record, hit or not. -/
+theorem limit_error_when_token_limit_reached (e : Entry) (n r : Nat) (src : Parse.Str)
+    (ht : (parse e (some n) r src).tokHigh > n) : ∃ x, x ∈ (parse e (some n) r src).errors ∧ x.kind = .limit := by
+  obtain ⟨pre, i, he⟩ := token_limit_error_is_last e n r src ht
+  exact ⟨⟨i, 0, .limit⟩, by rw [he]; simp, rfl⟩
+
+-- a guard hit with NO token current (the lexer refused the very first item): `limit_err` adds nothing, the token-limit
+-- error is the limit error on record — braced and brace-less field sets
+example : (parse .selectionSet (some 0) 0 "{a}".toList).errors.map (·.kind) = [.limit] ∧
+    (parse .selectionSet (some 0) 0 "{a}".toList).recHigh = 1 ∧
+    (parse .selectionSet (some 0) 0 "{a}".toList).tokHigh = 1 := by decide +kernel
+example : (parse .selectionSet (some 0) 0 "a".toList).errors.map (·.kind) = [.limit] ∧
+    (parse .selectionSet (some 0) 0 "a".toList).recHigh = 1 := by decide +kernel
+-- a token limit that is not reached: the run is the run without token limit (an instance of `hsame`)
+example : (parse .document (some 20) 1 "{ a { b } }".toList).tokHigh = 12 ∧
+    (parse .document (some 20) 1 "{ a { b } }".toList).errors = (parse .document none 1 "{ a { b } }".toList).errors ∧
+    (parse .document (some 20) 1 "{ a { b } }".toList).recHigh = (parse .document none 1 "{ a { b } }".toList).recHigh := by
+  decide +kernel
+
 end Apollo.C04
